@@ -7,6 +7,7 @@ from pyvc.verify import FnContract, method
 from pyvc import builtins as B
 from pyvc.builtins import TOP
 from .tree import parent, depth, anc, is_state, encloses, strictly_encloses, is_lca
+from pyvc.sym import name_of as name_of_
 
 SEARCH, EXITING, ENTERING = 0, 1, 2
 MON_VARS = ['g_cur', 'g_goal', 'g_turn', 'g_phase', 'g_turned', 'g_S', 'g_T', 'g_n_ex', 'g_n_en', 'g_n_in',
@@ -66,8 +67,18 @@ class HandlerModel:
     def __init__(self, world, weak=False, tags_order=('C01', 'C03'), spied=False):
         self.w = world
         self.weak = weak
+        self.spied = spied
         self.sig = world.signals
         self.st = world.statuses
+        if spied:
+            world.hooks['call_rawstate'] = self.rawcall
+
+    def rawcall(self, it, fv, args, kwargs):
+        """the undecorated user function behind a @spy_on state: the abstract handler of that state"""
+        s = it.c.pyghost['state_of_raw'][fv.e.sexpr()]
+        chart, e = args
+        sig = z3.simplify(it.c.hget(e, 'signal'))
+        return self.abstract(it, s, chart, e, sig)
 
     def __call__(self, it, fv, args, kwargs):
         c = it.c
@@ -82,6 +93,19 @@ class HandlerModel:
         c.prove('%s:call-pre/handler-is-a-state' % where, is_state(s), tags=('wf',))
         if c.branch(s == TOP, 'handler-is-top'):
             return self.call_top(it, chart, e, sig)
+        if self.spied:
+            # the state function is spy_on(raw): the real wrapper runs, around the abstract undecorated handler
+            from props.instr_targets import raw_of, spy_on_fn
+            raw = raw_of(s)
+            c.assume(z3.And(name_of_(raw) == name_of_(s), raw != NONE))
+            c.pyghost.setdefault('state_of_raw', {})[raw.sexpr()] = s
+            return it.call_func(spy_on_fn(it, raw), [chart, e], {})
+        return self.abstract(it, s, chart, e, sig)
+
+    def abstract(self, it, s, chart, e, sig):
+        c = it.c
+        g = c.ghost
+        where = it.where()
         # user code runs here: objects shared between charts (mutable class attributes, mutable defaults) may change
         it.havoc_globals()
         S = self.sig
@@ -144,7 +168,7 @@ class HandlerModel:
             if k == S['REFLECTION_SIGNAL']:
                 hook = it.w.hooks.get('reflection')
                 if hook:
-                    return hook(it, fv, chart, e)
+                    return hook(it, s, chart, e)
                 raise Unsupported('REFLECTION_SIGNAL sent to an abstract (unspied) handler')
         # an event of the client: the offer protocol of C02
         inner = [S[n] for n in ('ENTRY_SIGNAL', 'EXIT_SIGNAL', 'INIT_SIGNAL', 'REFLECTION_SIGNAL', 'EMPTY_SIGNAL',
@@ -339,9 +363,25 @@ def init_specs():
     return {(P, 1): s1, (P, 2): s2, (P, 3): s3}
 
 
-def install(world, weak=False):
+def instr_mods(it, env):
+    """fields the spy wrapper of a state function writes on every invocation"""
+    c = it.c
+    chart = env.get('self')
+    if chart is None or chart.pytype == 'HsmEventProcessor':
+        return [(chart, f) for f in ('spied_on', 'state_name', 'state_fn')] if chart is not None else []
+    out = [(chart, f) for f in ('spied_on', 'state_name', 'state_fn')]
+    rtc = c.read(chart, 'rtc')
+    for f in ('spy', 'tuples'):
+        d = c.read(rtc, f)
+        out += [(d, '$items'), (d, '$len')]
+    return out
+
+
+def install(world, weak=False, spied=False):
     from . import tree
-    world.hooks['call_state'] = HandlerModel(world, weak=weak)
+    world.hooks['call_state'] = HandlerModel(world, weak=weak, spied=spied)
+    if spied:
+        world.extra_mods = instr_mods
     world.loopspecs.update(init_specs())
     world.loopspecs.update(trans_hints(trans_specs()))
     world.contracts[TR] = FnContract(TR, trans_contract)
